@@ -66,6 +66,11 @@ CHECKS = {
    technique="TLA+ spec Crash.tla (storage operations refined into persisted write steps, Crash enabled at every step boundary) model-checked with TLC; every crashed state replayed by killing a child process at the matching probe (hook H2) and re-opening the account",
    text="Crash.tla refines create/update/delete of a secret and folder compaction into the writes the code performs on the persisted vault, the folder event log, its snapshot and the account log, for the file-system and the sqlite backend; TLC enumerates pre-history x crashing operation x step boundary and shows that the intended design (atomic log replacement, vault reconciled with the log on open) satisfies OpensAfterCrash, LogBeforeOrAfter and FolderEqReplayAfterRecover. Each crashed state of the code-faithful model becomes one process-level test: a child performs the pre-history on a real account, arms the probe of that boundary and dies by abort(); the parent re-opens through the normal path and checks that the account opens, the folder log is the one before or after the operation, reduce(log) = served = persisted and the integrity report is clean. Failures at crash points listed in known_findings.jsonl (keyed by backend, crash point and failure class) print KNOWN-FINDING; any other is a VIOLATION.",
    note="Process death between writes only (completed writes are applied in order); torn writes inside one write() and power-loss reordering are not enumerated; operations covered: secret create/update/delete, compaction (folder create/delete, merges, key changes have probes but are not yet in Crash.tla)."),
+ "C10": dict(
+   level="model_checking", design="DESIGN.md 6.8, 7 (C10)",
+   technique="TLA+ spec Crypto.tla (Enc / Tamper / Dec over ciphers, keys, nonces, tamper classes) model-checked with TLC; every class of decryption attempt TLC emits is instantiated on sos_core::crypto at every bit / offset; nonces recorded from real account histories validated as a trace of Enc with CryptoTrace.tla",
+   text="Crypto.tla states RoundTrip, TamperFails, KeyBound and NonceFresh and TLC checks them on all reachable states for 3 ciphers x 2 keys x 2 nonces x 8 tamper classes; each decryption class (encrypting cipher x decrypting cipher x same/other key x tamper class) is executed on Cipher::{AesGcm256, XChaCha20Poly1305, X25519} for plaintexts of 0, 1, 15, 16, 17, 100, 4096 bytes (and 3 MiB in thorough) through the binary encoding of AeadPack, at every nonce bit, every ciphertext bit (sampled on large blobs), truncations at either end, extensions, part swaps with a sibling blob, other nonce length and empty ciphertext: refused classes must return an error, intact blobs their exact plaintext, nothing may panic. Argon2id / Balloon derivation is checked deterministic and pairwise distinct over passwords x salts x seeds; built vaults and the folders of a generated account verify only their own password. Every (key epoch, nonce) found in vaults and event logs of a random account history on both backends is a trace that CryptoTrace.tla must accept as a behaviour of Enc (a repeated pair is rejected; the check verifies the rejection on a mutated copy).",
+   note="Forgery resistance of the AEAD primitives is assumed; nonce freshness is decided on the recorded executions (random 96/192-bit nonces), not proved for the RNG. KNOWN-FINDING AgeNonceUnbound: the nonce field of X25519 packs is not bound."),
  "C11": dict(
    level="model_checking", design="DESIGN.md 6.7, 7 (C11)",
    technique="TLA+ spec ServerAuth.tla (endpoint x credential form x access configuration x trust history) model-checked with TLC; every reachable combination sent as a hand-built HTTP request to a live sos_server on loopback with before/after comparison of the account's server state",
